@@ -57,7 +57,7 @@ m = {
 # sanity: every registered harness name exists in the harness sources
 import glob, re
 _src = "".join(open(f).read() for f in glob.glob(os.path.join(os.path.dirname(os.path.abspath(__file__)), "harness", "inc", "*.rs")))
-_names = set(re.findall(r"fn (\w+)\s*\(", _src)) | set(re.findall(r"(?:hist_proof|step_proof|life_proof|array_step)!\(\s*(\w+)\s*,", _src))
+_names = set(re.findall(r"fn (\w+)\s*\(", _src)) | set(re.findall(r"(?:hist_proof|step_proof|life_proof|array_step|c18_proof)!\(\s*(\w+)\s*,", _src))
 for _pid, _spec in registry.PROPS.items():
     for _tier in ("quick", "thorough"):
         for _j in _spec.get(_tier, []):
